@@ -38,16 +38,8 @@ Definition handler_block_stmt : Prop := forall maxc f script r w1 w2 w1',
 (* C12: nothing is written after a failed write                                                    *)
 (* ---------------------------------------------------------------------------------------------- *)
 
-(* handlers that propagate I/O errors: every read is `read(..).await?` (op 10), writes return their error (op 6
-   does), no op that observes an error and goes on (1, 2, 3, 5) *)
-Inductive prop_script : list N -> Prop :=
-| PS_nil : prop_script []
-| PS_set s rest : prop_script rest -> prop_script (4 :: s :: rest)
-| PS_write s n rest : prop_script (drop n rest) -> prop_script (6 :: s :: n :: rest)
-| PS_flush s rest : prop_script rest -> prop_script (7 :: s :: rest)
-| PS_exit d c rest : prop_script (8 :: d :: c :: rest)
-| PS_fail k rest : prop_script (9 :: k :: rest)
-| PS_readq n rest : prop_script rest -> prop_script (10 :: n :: rest).
+(* handlers that propagate I/O errors: [prop_script], defined in Async/ConnTotal.v (opcodes 4, 6, 7, 8, 9, 10: every read is
+   `read(..).await?`, writes return their error, no op that observes an error and goes on) *)
 
 Definition plain_fault (k : N) : Prop := k = W_ZERO \/ k = W_ERR.
 
